@@ -66,6 +66,12 @@ def main():
 
     def copy(a, b):
         point("before-copy")
+        # a copy is not atomic: the process may die when only part of it is written
+        with open(a, "rb") as f:
+            raw = f.read()
+        with open(b, "wb") as f:
+            f.write(raw[:max(1, len(raw) // 2)])
+        point("mid-copy")
         r = real_copy(a, b)
         point("after-copy")
         return r
